@@ -3,7 +3,7 @@ from harness import asmcheck
 from checks import tracepart
 
 WHAT = ['status', 'image', 'addr', 'bytes']
-KINDS = {'lab', 'org', 'orgz', 'align', 'zone', 'zuntil', 'fill', 'i2', 'i3'}
+KINDS = {'lab', 'org', 'orgz', 'align', 'zone', 'zuntil', 'fill', 'i2', 'i3', 'brl', 'mbr'}
 BASE = {'addr_bits': 16, 'origin': 0, 'page_size': 8, 'pre_zones_op': 'ZonesA', 'pre_zones': [('z1', 8, 11), ('z2', 10, 13)]}
 
 
@@ -15,6 +15,8 @@ def instances(tier):
         yield 'top3', dict(BASE, addr_bits=5, max_len=3), 'AlphaC02top', None
         yield 'redefined-global-origin6', dict(BASE, addr_bits=5, max_len=2, origin=6, pre_zones_op='ZonesB', pre_zones=[('GLOBAL', 4, 15), ('z1', 6, 9), ('z2', 14, 17)]), 'AlphaC02core', None
         yield 'files3', dict(BASE, max_len=15, win_end=24, blocks_op='BlocksScope', emit_inv='EmitInc'), 'MCNoAlphabet', None
+        yield 'pdata3', dict(BASE, max_len=3, pre_data_op='DataTwo', pre_data=[('pd1', 20, 85, 2), ('pd2', 14, 51, 1)]), 'AlphaC02pdata', None
+        yield 'rel4', dict(BASE, max_len=4), 'AlphaC02rel', None
         yield 'top-sim6', dict(BASE, addr_bits=5, max_len=6), 'AlphaC02top', 'num=1500'
         yield 'wide-sim8', dict(BASE, max_len=8), 'AlphaC02wide', 'num=1500'
     else:
@@ -25,13 +27,16 @@ def instances(tier):
         yield 'top5', dict(BASE, addr_bits=5, max_len=5), 'AlphaC02top', None
         yield 'redefined-global-origin6', dict(BASE, addr_bits=5, max_len=4, origin=6, pre_zones_op='ZonesB', pre_zones=[('GLOBAL', 4, 15), ('z1', 6, 9), ('z2', 14, 17)]), 'AlphaC02core', None
         yield 'files4', dict(BASE, max_len=20, win_end=30, blocks_op='BlocksScope', emit_inv='EmitInc'), 'MCNoAlphabet', None
+        yield 'pdata4', dict(BASE, max_len=4, pre_data_op='DataTwo', pre_data=[('pd1', 20, 85, 2), ('pd2', 14, 51, 1)]), 'AlphaC02pdata', None
+        yield 'rel5', dict(BASE, max_len=5), 'AlphaC02rel', None
+        yield 'rel-sim9', dict(BASE, max_len=9), 'AlphaC02rel', 'num=20000'
         yield 'wide-sim10', dict(BASE, max_len=10), 'AlphaC02wide', 'num=30000'
 
 
 def run(chk):
     chk.rule = ('TLC enumerates every abstract program up to MaxLen lines over the C02 alphabets of spec/MC_Asm.tla '
                 '(labels, instructions of 1-3 bytes with forward/backward references, data, fills, zerountil, origins, '
-                'zone switches, alignment, mute, excluded blocks) and checks Contiguity, ReservedEqualsEmitted, '
+                'zone switches, alignment, mute, excluded blocks; AlphaC02rel: relative branches whose field is target - own address, alone and as the middle step of a macro, so the bytes expose the address pass 2 works with) and checks Contiguity, ReservedEqualsEmitted, '
                 'LabelIsNextAddress, AlignIsLeastMultiple on the specification; each terminal scenario is rendered to '
                 'source, assembled by the real code and compared on status, per-line listing address, per-line bytes and '
                 'image. Non-trivial = contains a label, origin, alignment, zone or fill line; distinct by program text.')
